@@ -95,7 +95,8 @@ CHECKS = {
              "segment meets the surface, with the endpoint and coplanar branches characterised. pip_correct (the "
              "winding test with tolerances) is proved for axis-aligned rectangular surfaces (six orientations, eight "
              "vertex orders, margin eta/2 from the edge lines, sqrt laws), which makes the segment logic unconditional "
-             "for shoebox rooms; for general polygons it is NOT proved and is refuted as a universal statement by a Qc "
+             "for shoebox rooms, and for triangles on axis planes in general position; for any polygon on an axis "
+             "plane in general position it is reduced to a tolerance-free crossing number; for general polygons it is NOT proved and is refuted as a universal statement by a Qc "
              "witness (ray through a pointed vertex: known finding C07/ray_through_vertex). Correspondence against an "
              "exact rational segment/polygon oracle.",
         note=TRUST + "Winding-number correctness for non-rectangular or rotated surfaces is validated by differential "
